@@ -114,6 +114,17 @@ func (s *set[K, V]) getValues() []V {
 	return values
 }
 
+// addOrderedRef records the entity with the given id once and keeps the order
+// of first insertion, so that the collected entities can be listed in an order
+// that does not depend on map iteration.
+func addOrderedRef[V any](seen map[EntityID]V, order *[]V, id EntityID, val V) {
+	if _, ok := seen[id]; ok {
+		return
+	}
+	seen[id] = val
+	*order = append(*order, val)
+}
+
 func getTabString(tabs int) string {
 	tabStr := ""
 	for i := 0; i < tabs; i++ {
